@@ -11,7 +11,10 @@ def run(ctx):
     ts = []
     for i in range(n):
         p = D.params(rng)
-        if i % 3 != 0:      # two thirds of the histories draw their containers per call (arrays in either order, frames, lists, int dtypes, views)
+        if i % 6 == 1:      # fractional data, references on the even lattice in integer-typed containers
+            p["halves"] = True
+            p["feed"] = {"seed": rng.randrange(10 ** 6), "kinds": [rng.choice(["intarray", "lists", "intframe"])]}
+        elif i % 3 != 0:      # two thirds of the histories draw their containers per call (arrays in either order, frames, lists, int dtypes, views)
             C.choose(rng, p, C.BATCH_KINDS)
         ts.append(D.run(p, D.history(rng, p, nb), seed=rng.randrange(10 ** 6), frame=rng.random() < 0.6))
     ctx.validate("HDM", ts, "HDDDM / CDBD histories on integer data", sabotage=D.sabotage,
